@@ -44,15 +44,44 @@ def single_cache_writer(ctx):
     cfg = CFG(uv.node, m, uv.module)
     rd = ReachingDefs(cfg, uv.node)
     items = [c for c in calls_in(uv.node) if call_name(c) == 'CacheItem']
-    for c in items:
-        o = rd.origins_at(c, c.args[0]) if c.args else []
-        # value is imported unless there is a read error (then it is None / unused)
+    errp = uv.node.args.args[5].arg if len(uv.node.args.args) > 5 else 'readerror'
+    err_side = sides_with_fact(cfg, lambda a, tv: tv and src(a) == errp)
+    ok_side = sides_with_fact(cfg, lambda a, tv: not tv and src(a) == errp)
+
+    def value_is_imported(site, expr):
+        """what is handed on as the value is the imported one - except where an error is cached (the value is unused then)"""
+        o = rd.origins_at(site, expr)
         imported = [x for x in o if is_method_call(x, {'import_value'})]
         rest = [x for x in o if x not in imported]
+        ids = set(cfg.node_of(site))
+        if ids and ids <= err_side:
+            return True, o          # only reached with an error
+        if ids and ids <= ok_side:
+            return bool(imported) and not rest, o
         ok = bool(imported) and all(isinstance(x, ast.Name) and x.id.startswith('<param') for x in rest)
-        guarded = any(isinstance(a, ast.If) and 'readerror' in src(a.test) for x in imported for a in ancestors(x))
-        ctx.check(ok and guarded, f'{uv.qualname}:cached value is imported', c, 'value = datatype.import_value(value) unless an error is cached',
+        guarded = any(isinstance(a, ast.If) and errp in src(a.test) for x in imported for a in ancestors(x))
+        return ok and guarded, o
+    for c in items:
+        if not c.args:
+            continue
+        ok, o = value_is_imported(c, c.args[0])
+        ctx.check(ok, f'{uv.qualname}:cached value is imported', c, 'value = datatype.import_value(value) unless an error is cached',
                   f'the cached value is {[src(x) for x in o]}: the transport form is stored without import_value', uv)
+    # the legacy fan-out (updateEvent callbacks of the base class) gets the same value as the cache
+    for c in calls_in(uv.node):
+        if not (call_attr(c) == 'updateValue' and 'super()' in src(c.func)):
+            continue
+        vals = c.args[2:]
+        if vals and isinstance(vals[0], ast.Starred):
+            o = rd.origins_at(c, vals[0].value)
+            ok = bool(o) and all(isinstance(x, ast.Call) and call_name(x) == 'CacheItem' for x in o)
+        elif vals:
+            ok, o = value_is_imported(c, vals[0])
+        else:
+            ok, o = False, []
+        ctx.check(ok, f'{uv.qualname}:updateEvent callbacks get the imported value', c, 'the value handed to the base class is the cached one',
+                  f'`{src(c)}` hands {[src(x) for x in o]} to the updateEvent callbacks: the transport form of the value (123 for a scaled 1.23, base64 text '
+                  'for a blob, a list for a tuple) while the cache and the updateItem callbacks hold the imported one', uv)
 
 
 @rule('C12.R2', min_instances=4)
